@@ -219,7 +219,6 @@ def run(ck):
         raise Infra("rows lost between generator and replay: %s" % missing[:5])
     if stats["events_random"] < (2000 if ck.thorough else 250):
         raise Infra("too few random calls recorded (vacuous): %d" % stats["events_random"])
-    canaries(ck, all_gen)
     found = judge(ck, files, stats, rows)
     for cr in crashes:
         found.append({"api": API.get(cr.get("of"), "header"), "via": "head", "key": "X01:%s:crash" % API.get(cr.get("of"), "header"),
@@ -233,6 +232,14 @@ def run(ck):
     ev0 = next(e for e in all_gen if e["k"] == "Acct" and e["case"].endswith("wc_present/state_other") and e["policy"] == "unsafe")
     ck.sample({"direction": "C->S", "event": slim(ev0)})
     report_all(ck, found)
+    try:
+        canaries(ck, all_gen)
+    except Infra as e:
+        # canaries are made from recorded behaviour: when the code under test is broken they may not exist; the
+        # violations already found stand
+        if not (ck.violations or ck.known_hit):
+            raise
+        ck.notes.append("canaries could not be evaluated on this (violating) run: %s" % e)
     distinct = len(ck.extra.pop("_distinct"))
     ck.extra["stats"] = dict(sorted(stats.items()))
     return ck.finish(rule=RULE, distinct=distinct)
